@@ -69,6 +69,10 @@ class Violation(Exception):
     """The property is violated on this path."""
 
 
+class HarnessError(Exception):
+    """The harness (a stub, the oracle's own self-check) is wrong: never a verdict about the code under test."""
+
+
 class Reject(IgnoreAttempt):
     """Input outside the stated bound / precondition (path is ignored)."""
 
@@ -235,11 +239,13 @@ def explore(
                     exc, tb = efilter.user_exc
                     if isinstance(exc, NotDeterministic):
                         raise NotDeterministic
+                    if isinstance(exc, HarnessError):
+                        res.error = f"HarnessError: {exc}"
                     with ResumedTracing():
                         space.detach_path(exc)
                         realised = deep_realize(pre_args.arguments)
                         msg = deep_realize(str(exc))
-                    res.counterexample = {
+                    res.counterexample = None if isinstance(exc, HarnessError) else {
                         "args": _jsonable(dict(realised)),
                         "exc_type": type(exc).__name__,
                         "message": msg,
